@@ -125,5 +125,43 @@ pub fn keep_enabled(o: Option<&'static config2::CommodityConversionSpec>) -> (r:
 {
     {EXPR}
 }"""),
+        # ---- Txn::to_double_entry: where an unmatched record goes and when the counter-posting is pending (C17's last sentence; C16's counter-posting)
+        ("raw", """
+#[verifier::external_body]
+pub fn opt_string_as_deref_or<'a>(o: &'a Option<String>, default: &'a str) -> (r: &'a str)
+    ensures r@ == (match *o { Some(s) => s@, None => default@ }),
+{ unimplemented!() }
+"""),
+        U("callsite:to_double_entry.counter_posting_state", "cli/src/import/single_entry.rs", [r"impl Txn\b", r"pub fn to_double_entry<'a>"], fn="counter_state", no_canary=True,
+          slice=r"let post_clear = (self\.clear_state\.unwrap_or\([\s\S]*?\}\));", slice_count=1, slice_raw=True,
+          rewrites=[("R17-free-var", "re:\\bself\\b", "this", None)],
+          slice_template="""fn counter_state(this: &Txn) -> (r: syntax::ClearState)
+    ensures
+        // C17: an explicit state (the importer sets Pending when no matching account rule cleared the record) wins; otherwise the counter-posting
+        //      is pending exactly when no rule assigned an account
+        r == (match this.clear_state { Some(c) => c, None => if this.dest_account is Some { syntax::ClearState::Uncleared } else { syntax::ClearState::Pending } }),   // @to_double_entry.pending_unless_cleared_or_assigned
+{
+    {EXPR}
+}"""),
+        U("callsite:to_double_entry.unmatched_income", "cli/src/import/single_entry.rs", [r"impl Txn\b", r"pub fn to_double_entry<'a>"], fn="counter_account_in", no_canary=True,
+          slice=r"if self\.amount\.value\.is_sign_positive\(\) \{[\s\S]*?syntax::Posting::new_untracked\(\s*(self\.dest_account\.as_deref\(\)\.unwrap_or\([^)]*\)),", slice_count=1, slice_raw=True,
+          rewrites=[("R24-std-model", "re:self\\.dest_account\\.as_deref\\(\\)\\.unwrap_or\\(", "opt_string_as_deref_or(&this.dest_account, ", 1)],
+          slice_template="""fn counter_account_in(this: &Txn) -> (r: &str)
+    ensures
+        // C17: money coming in that no account-assigning rule matched goes to Income:Unknown
+        r@ == (match this.dest_account { Some(a) => a@, None => "Income:Unknown"@ }),   // @to_double_entry.unmatched_credit_goes_to_income_unknown
+{
+    {EXPR}
+}"""),
+        U("callsite:to_double_entry.unmatched_expense", "cli/src/import/single_entry.rs", [r"impl Txn\b", r"pub fn to_double_entry<'a>"], fn="counter_account_out", no_canary=True,
+          slice=r"else if self\.amount\.value\.is_sign_negative\(\) \{[\s\S]*?syntax::Posting::new_untracked\(\s*(self\.dest_account\.as_deref\(\)\.unwrap_or\([^)]*\)),", slice_count=1, slice_raw=True,
+          rewrites=[("R24-std-model", "re:self\\.dest_account\\.as_deref\\(\\)\\.unwrap_or\\(", "opt_string_as_deref_or(&this.dest_account, ", 1)],
+          slice_template="""fn counter_account_out(this: &Txn) -> (r: &str)
+    ensures
+        // C17: money going out that no account-assigning rule matched goes to Expenses:Unknown
+        r@ == (match this.dest_account { Some(a) => a@, None => "Expenses:Unknown"@ }),   // @to_double_entry.unmatched_debit_goes_to_expenses_unknown
+{
+    {EXPR}
+}"""),
     ],
 }
